@@ -1650,11 +1650,15 @@ def mkdofpv(uset, nasset, dof, *, strict=True, grids_only=True):
 
     i = np.argsort(uset_set)
     pvi = np.searchsorted(uset_set, _dof, sorter=i)
-    # since searchsorted can return length as index:
-    pvi[pvi == i.size] -= 1
-    pv = i[pvi]
-
-    chk = uset_set[pv] != _dof
+    if i.size == 0:
+        # empty set: nothing can be found
+        pv = pvi
+        chk = np.ones(len(_dof), bool)
+    else:
+        # since searchsorted can return length as index:
+        pvi[pvi == i.size] -= 1
+        pv = i[pvi]
+        chk = uset_set[pv] != _dof
     if chk.any():
         if strict:
             msg = (
